@@ -1,5 +1,5 @@
 /-
-  Mrm/Proofs/NoCrash.lean — on well-formed child lists and with a readable message ID, no merge
+  Mrm/Proofs/NoCrash.lean — with a readable message ID, no merge
   helper produces a built-in exception (C12).
 -/
 import Mrm.Proofs.Find
@@ -13,22 +13,16 @@ theorem nx_ok (cs : List Xml) (ws : List Warn) : NX ⟨cs, ws, none⟩ := by int
 theorem nx_merge (cs : List Xml) (ws : List Warn) : NX (failWith cs ws .merge) := by intro x; simp [failWith]
 theorem nx_raise (cs : List Xml) (ws : List Warn) : NX (failWith cs ws (raiseMerge none)) := nx_merge cs ws
 
-theorem wfKids_eraseIdx {tag : String} {cs : List Xml} (i : Nat) (h : WfKids tag cs = true) :
-    WfKids tag (cs.eraseIdx i) = true := by
-  simp only [WfKids, List.all_eq_true] at h ⊢
-  intro c hc
-  exact h c (List.mem_of_mem_eraseIdx hc)
-
-theorem findRequired_err {tag : String} {cs : List Xml} {id : Key} {e : Err} (hw : WfKids tag cs = true)
+theorem findRequired_err {tag : String} {cs : List Xml} {id : Key} {e : Err}
     (h : findRequired tag none cs id = .error e) : e = .merge := by
-  rw [findRequired_ok tag none cs id hw] at h
+  rw [findRequired_ok tag none cs id] at h
   split at h
   · cases h
   · cases h; rfl
 
-theorem findTarget_err {tag : String} {cs : List Xml} {id : Key} {e : Err} (hw : WfKids tag cs = true)
+theorem findTarget_err {tag : String} {cs : List Xml} {id : Key} {e : Err}
     (h : findTarget tag none cs id = .error e) : e = .merge := by
-  rw [findTarget_ok tag none cs id hw] at h
+  rw [findTarget_ok tag none cs id] at h
   split at h
   · cases h
   · split at h
@@ -36,12 +30,12 @@ theorem findTarget_err {tag : String} {cs : List Xml} {id : Key} {e : Err} (hw :
     · cases h; rfl
 
 theorem collectSources_err {tag : String} {cs : List Xml} {t : Option Nat} {ids : List Key} {acc : List Nat}
-    {e : Err} (hw : WfKids tag cs = true) (h : collectSources tag none cs t ids acc = .error e) : e = .merge := by
+    {e : Err} (h : collectSources tag none cs t ids acc = .error e) : e = .merge := by
   induction ids generalizing acc with
   | nil => simp [collectSources] at h
   | cons id ids ih =>
     unfold collectSources at h
-    rw [findChildId_ok tag cs id hw] at h
+    rw [findChildId_ok tag cs id] at h
     split at h
     · rename_i heq; cases heq
     · cases h; rfl
@@ -52,21 +46,19 @@ theorem collectSources_err {tag : String} {cs : List Xml} {t : Option Nat} {ids 
 theorem nx_of_merge {cs : List Xml} {ws : List Warn} {e : Err} (h : e = .merge) : NX (failWith cs ws e) := by
   subst h; exact nx_merge cs ws
 
-theorem deleteLoop_noerr (tag : String) (w : Warn) (cs : List Xml) (ids : List Key) (ws : List Warn)
-    (hw : WfKids tag cs = true) : (deleteLoop tag w none cs ids ws).err = none := by
+theorem deleteLoop_noerr (tag : String) (w : Warn) (cs : List Xml) (ids : List Key) (ws : List Warn) : (deleteLoop tag w none cs ids ws).err = none := by
   induction ids generalizing cs ws with
   | nil => simp [deleteLoop]
   | cons id ids ih =>
     unfold deleteLoop
-    rw [findChildId_ok tag cs id hw]
+    rw [findChildId_ok tag cs id]
     split
     · rename_i heq; cases heq
-    · exact ih _ _ (wfKids_eraseIdx _ hw)
-    · exact ih _ _ hw
+    · exact ih _ _
+    · exact ih _ _
 
-theorem nx_deleteLoop (tag : String) (w : Warn) (cs : List Xml) (ids : List Key) (ws : List Warn)
-    (hw : WfKids tag cs = true) : NX (deleteLoop tag w none cs ids ws) := by
-  intro x; rw [deleteLoop_noerr tag w cs ids ws hw]; simp
+theorem nx_deleteLoop (tag : String) (w : Warn) (cs : List Xml) (ids : List Key) (ws : List Warn) : NX (deleteLoop tag w none cs ids ws) := by
+  intro x; rw [deleteLoop_noerr tag w cs ids ws]; simp
 
 theorem insertDedup_noerr (ex : List Key) (cs : List Xml) (i : Nat) (ss : List Xml) (ws : List Warn) :
     (insertDedup none ex cs i ss ws).err = none := by
@@ -82,37 +74,34 @@ theorem nx_insertDedup (ex : List Key) (cs : List Xml) (i : Nat) (ss : List Xml)
     NX (insertDedup none ex cs i ss ws) := by
   intro x; rw [insertDedup_noerr]; simp
 
-theorem nx_moveMany (tag : String) (cs : List Xml) (t : Key) (ss : List Key) (hw : WfKids tag cs = true) :
+theorem nx_moveMany (tag : String) (cs : List Xml) (t : Key) (ss : List Key) :
     NX (moveMany tag none cs t ss) := by
   unfold moveMany
   split
-  · rename_i e h; exact nx_of_merge (findTarget_err hw h)
+  · rename_i e h; exact nx_of_merge (findTarget_err h)
   · split
-    · rename_i e h; exact nx_of_merge (collectSources_err hw h)
+    · rename_i e h; exact nx_of_merge (collectSources_err h)
     · exact nx_ok _ _
 
-theorem nx_swapTwo (tag : String) (cs : List Xml) (ids : List Key) (hw : WfKids tag cs = true)
+theorem nx_swapTwo (tag : String) (cs : List Xml) (ids : List Key)
     (h2 : ids.length = 2) : NX (swapTwo tag none cs ids) := by
   unfold swapTwo
   match ids, h2 with
   | [a, b], _ =>
     simp only [unpack2]
     split
-    · rename_i e h; exact nx_of_merge (findRequired_err hw h)
+    · rename_i e h; exact nx_of_merge (findRequired_err h)
     · split
-      · rename_i e h; exact nx_of_merge (findRequired_err hw h)
+      · rename_i e h; exact nx_of_merge (findRequired_err h)
       · exact nx_ok _ _
 
-theorem nx_insertBefore (tag : String) (cs : List Xml) (t : Key) (xs : List Xml) (hw : WfKids tag cs = true) :
+theorem nx_insertBefore (tag : String) (cs : List Xml) (t : Key) (xs : List Xml) :
     NX (insertBefore tag none cs t xs) := by
   unfold insertBefore
   split
-  · rename_i e h; exact nx_of_merge (findTarget_err hw h)
+  · rename_i e h; exact nx_of_merge (findTarget_err h)
   · exact nx_ok _ _
   · exact nx_ok _ _
-
-/-- every story child has well-formed items -/
-def WfItems (cs : List Xml) : Prop := ∀ s ∈ cs, s.tag = "story" → WfKids "item" s.kids = true
 
 theorem nx_inStoryAt (cs : List Xml) (k : Nat) (f : List Xml → Out) (hk : k < cs.length)
     (hf : NX (f cs[k].kids)) : NX (inStoryAt cs k f) := by
@@ -120,19 +109,16 @@ theorem nx_inStoryAt (cs : List Xml) (k : Nat) (f : List Xml → Out) (hk : k < 
   simp only [List.getElem?_eq_getElem hk]
   exact hf
 
-theorem nx_inStory (cs : List Xml) (sid : Key) (f : List Xml → Out) (hw : WfKids "story" cs = true)
-    (hi : WfItems cs) (hf : ∀ items, WfKids "item" items = true → NX (f items)) :
+theorem nx_inStory (cs : List Xml) (sid : Key) (f : List Xml → Out)
+    (hf : ∀ items, NX (f items)) :
     NX (inStory none cs sid f) := by
   unfold inStory
-  rw [findRequired_ok "story" none cs sid hw]
+  rw [findRequired_ok "story" none cs sid]
   cases hl : locate "story" cs sid with
   | none => exact nx_raise _ _
   | some k =>
     obtain ⟨key, _, hk, hc, _⟩ := locate_some hl
     apply nx_inStoryAt cs k f hk
     apply hf
-    apply hi _ (List.getElem_mem hk)
-    simp only [isChild, Bool.and_eq_true, beq_iff_eq] at hc
-    exact hc.1
 
 end Mrm
